@@ -225,26 +225,35 @@ def run(ctx):
             o.undecided("acceptance loop not found", fn)
         else:
             c = txt(accept.target)
-            ifs = [s for s in accept.body if isinstance(s, ast.If) and max_size in astx.names_in(s.test)]
-            if not ifs:
-                o.violated(fn, accept, "the size limit is ignored") if max_size else o.undecided("no size limit parameter", fn)
-            elif len(ifs) == 1 and len(ifs[0].body) == 1 and isinstance(ifs[0].body[0], ast.Continue) and isinstance(ifs[0].test, ast.BoolOp) and isinstance(ifs[0].test.op, ast.And):
-                parts = sorted(txt(v) for v in ifs[0].test.values)
-                ok = sorted([f"len({c}) > {max_size}", f"{max_size} > 0"])
-                alt = sorted([f"len({c}) > {max_size}", f"{max_size} != 0"])
-                alt2 = sorted([f"len({c}) > {max_size}", f"{max_size}"])
-                if parts in (ok, alt, alt2):
-                    o.holds(fn, ifs[0], f"skip iff len({c}) > {max_size} and {max_size} > 0")
-                elif any(p.startswith(f"len({c}) >=") or p.startswith(f"len({c}) <") or p.startswith(f"len({c}) ==") for p in parts):
-                    o.violated(fn, ifs[0], f"`{txt(ifs[0].test)}` does not skip exactly the cliques larger than the limit")
-                else:
-                    o.undecided(f"size-limit test `{txt(ifs[0].test)}` not recognised", fn, ifs[0])
+            # the limit test is a path condition of the acceptance (`if ...: continue` or an enclosing `if`)
+            conds = [(t_, p_) for t_, p_ in rules.path_conditions(par, app, upto=accept) if max_size and max_size in astx.names_in(sc.resolve(t_, keep=[c, max_size]))]
+            elsewhere = [n for n in astx.walk_fn(fn.node) if isinstance(n, ast.Name) and n.id == max_size and not par.inside(n, accept)] if max_size else []
+            if not max_size:
+                o.undecided("no size limit parameter", fn)
+            elif not conds and elsewhere:
+                o.undecided("the size limit is applied outside the acceptance loop: not recognised", fn, elsewhere[0])
+            elif not conds:
+                o.violated(fn, accept, "the size limit is ignored")
             else:
-                t = txt(ifs[0].test)
-                if len(ifs[0].body) == 1 and isinstance(ifs[0].body[0], ast.Continue) and t == f"len({c}) > {max_size}":
-                    o.violated(fn, ifs[0], "with the default limit 0 every clique is skipped (the `max_size > 0` part is missing)")
+                env_ = {c: tm.sym(c), max_size: tm.sym(max_size)}
+                terms = []
+                for t_, p_ in conds:
+                    tt = tm.translate(sc.resolve(t_, keep=[c, max_size]))
+                    terms.append(tt if p_ else tm.mk_not(tt))
+                got = tm.canon(tm.mk_bool("And", tuple(terms)))
+                def skip_(src_):
+                    return tm.canon(tm.mk_not(tm.parse(src_)))
+                accepted = [skip_(f"len({c}) > {max_size} and {max_size} > 0"), skip_(f"len({c}) > {max_size} and {max_size} != 0"), skip_(f"len({c}) > {max_size} and {max_size}"),
+                            skip_(f"len({c}) > {max_size} and {max_size} >= 1")]
+                where = par.stmt_of(conds[0][0])
+                if got in accepted:
+                    o.holds(fn, where, f"skip iff len({c}) > {max_size} and {max_size} > 0")
+                elif got == skip_(f"len({c}) > {max_size}"):
+                    o.violated(fn, where, "with the default limit 0 every clique is skipped (the `max_size > 0` part is missing)")
+                elif not tm.has_opaque(got) and tm.leaves(got) <= {c, max_size, "len()"} | {l for l in tm.leaves(got) if l.startswith("len")}:
+                    o.violated(fn, where, f"`{' / '.join(txt(t_) for t_, _ in conds)}` does not skip exactly the cliques larger than a positive limit")
                 else:
-                    o.undecided(f"size-limit test `{t}` not recognised", fn, ifs[0])
+                    o.undecided(f"size-limit test `{txt(conds[0][0])}` not recognised", fn, where)
 
     claimed_sets = [nm for nm, sites in sc.assigns.items() if len(sites) == 1 and txt(sites[0].value) in ("set()", "set([])")]
     with ctx.obligation("C10.4", "accept iff all pairs unclaimed, then claim all pairs of the same clique", floor=2) as o:
@@ -278,6 +287,9 @@ def run(ctx):
                     tset = _pairs_of(e_it, prog, fn) if e_it is not None else None
                     args = [txt(a) for a in te.args]
                     ok_args = e_it is not None and args in ([f"{e_var}[0]", f"{e_var}[1]"], [f"*{e_var}"], [f"{e_var}[1]", f"{e_var}[0]"])
+                    e_tgt = comps[0].generators[0].target if comps else (tl[0].target if tl and tl[0] is not accept else None)
+                    if e_it is not None and isinstance(e_tgt, ast.Tuple) and len(e_tgt.elts) == 2 and sorted(args) == sorted(txt(x) for x in e_tgt.elts):
+                        ok_args = True   # for u, v in pairs: has_edge(u, v)
                     if claim == c and tset == c and ok_args:
                         o.holds(fn, rm, f"test set = claim set = all 2-subsets of `{c}`")
                     elif claim is not None and tset is not None and (claim != c or tset != c):
@@ -286,17 +298,23 @@ def run(ctx):
                         o.undecided("test/claim sets not recognised", fn, rm)
                     # guards: append and remove only when no tested pair is missing
                     skip_flags = [s for s in ast.walk(accept) if isinstance(s, ast.Assign) and isinstance(s.value, ast.Constant) and s.value.value is True]
-                    gi = [a for a in par.ancestors(rm) if isinstance(a, ast.If) and par.inside(a, accept)]
-                    ga = [a for a in par.ancestors(app) if isinstance(a, ast.If) and par.inside(a, accept)]
-                    if not gi or not ga:
-                        o.violated(fn, rm if not gi else app, "a clique is accepted / its edges claimed without the all-unclaimed test")
-                    elif gi[0] is not ga[0] or par.branch_of(rm, gi[0]) != par.branch_of(app, ga[0]):
-                        o.violated(fn, gi[0], "acceptance and claiming are guarded differently: a clique can be accepted without claiming its edges (or vice versa)")
+                    flag_names = {txt(f_.targets[0]) for f_ in skip_flags}
+
+                    def _guard_of(node):
+                        # the path condition of node (within one iteration) that carries the unclaimed test or its flag
+                        for t_, p_ in rules.path_conditions(par, node, upto=accept):
+                            if any(x is te for x in ast.walk(t_)) or (astx.names_in(t_) & flag_names):
+                                return t_, p_
+                        return None
+                    gi, ga = _guard_of(rm), _guard_of(app)
+                    if gi is None or ga is None:
+                        o.violated(fn, rm if gi is None else app, "a clique is accepted / its edges claimed without the all-unclaimed test")
+                    elif gi[0] is not ga[0] or gi[1] != ga[1]:
+                        o.violated(fn, par.stmt_of(gi[0]), "acceptance and claiming are guarded differently: a clique can be accepted without claiming its edges (or vice versa)")
                     else:
-                        guard = gi[0]
-                        br = par.branch_of(rm, guard)
-                        t = guard.test
-                        neg = br == "orelse"
+                        guard = par.stmt_of(gi[0])
+                        t = gi[0]
+                        neg = not gi[1]
                         while isinstance(t, ast.UnaryOp) and isinstance(t.op, ast.Not):
                             neg, t = not neg, t.operand
                         if isinstance(t, ast.Name) and skip_flags and txt(skip_flags[0].targets[0]) == t.id:
@@ -322,7 +340,7 @@ def run(ctx):
                         elif isinstance(t, ast.Call) and txt(t.func) == "any" and comps and neg and isinstance(comps[0].elt, ast.UnaryOp):
                             o.holds(fn, guard, "accepted iff not any(not g.has_edge(..) ...)")
                         else:
-                            o.undecided(f"acceptance guard `{txt(guard.test)}` not recognised", fn, guard)
+                            o.undecided(f"acceptance guard `{txt(gi[0])}` not recognised", fn, guard)
 
     with ctx.obligation("C10.6", "labels: f'{len(c)}-{c}-{ID}' on every pair of every accepted clique; one fresh id per clique", floor=3) as o:
         stores = [n for n in astx.walk_fn(fn.node) if isinstance(n, ast.Assign) and isinstance(n.targets[0], ast.Subscript) and isinstance(n.targets[0].slice, ast.Constant)
@@ -332,21 +350,25 @@ def run(ctx):
         else:
             st = stores[0]
             loops = par.loops_of(st)
-            if len(loops) != 2 or txt(loops[1].iter) != cover:
+            enum_id = None
+            if len(loops) == 2 and match(pat(f"enumerate({cover})"), loops[1].iter) is not None and isinstance(loops[1].target, ast.Tuple) and len(loops[1].target.elts) == 2:
+                enum_id = txt(loops[1].target.elts[0])
+            if len(loops) != 2 or (txt(loops[1].iter) != cover and enum_id is None):
                 if len(loops) == 2 and isinstance(loops[1].iter, ast.Subscript):
                     o.violated(fn, loops[1], "only part of the cover is labelled")
                 else:
                     o.undecided("label store is not inside `for c in cover: for e in pairs(c):`", fn, st)
             else:
                 el, cl = loops
-                c = txt(cl.target)
+                c = txt(cl.target) if enum_id is None else txt(cl.target.elts[1])
                 e = txt(el.target)
                 if _pairs_of(el.iter, prog, fn) == c:
                     o.holds(fn, el, f"every pair of `{c}` is labelled")
                 else:
                     o.violated(fn, el, f"labelled pairs are `{txt(el.iter)}`, not all 2-subsets of the accepted clique")
                 key = st.targets[0].value
-                if isinstance(key, ast.Subscript) and txt(key.value) == f"{G}.edges" and txt(key.slice) in (f"({e}[0], {e}[1])", f"{e}", f"({e}[1], {e}[0])"):
+                e_rev = f"({txt(el.target.elts[1])}, {txt(el.target.elts[0])})" if isinstance(el.target, ast.Tuple) and len(el.target.elts) == 2 else None
+                if isinstance(key, ast.Subscript) and txt(key.value) == f"{G}.edges" and txt(key.slice) in (f"({e}[0], {e}[1])", f"{e}", f"({e}[1], {e}[0])", e_rev):
                     o.holds(fn, st, f"label stored on edge {e} of the input graph")
                 else:
                     o.undecided(f"label target `{txt(st.targets[0])}` not recognised", fn, st)
@@ -365,7 +387,9 @@ def run(ctx):
                         idexpr = v.values[4].value
                         idn = txt(idexpr)
                         idef = [s for s in cl.body if isinstance(s, (ast.Assign, ast.AnnAssign)) and txt(s.targets[0] if isinstance(s, ast.Assign) else s.target) == idn]
-                        if len(idef) == 1 and isinstance(idef[0].value, ast.Call) and txt(idef[0].value.func) == "next":
+                        if enum_id is not None and idn == enum_id and not idef:
+                            o.holds(fn, cl, f"id = position of the clique in `{cover}` (enumerate): one fresh id per accepted clique, starting at 0")
+                        elif len(idef) == 1 and isinstance(idef[0].value, ast.Call) and txt(idef[0].value.func) == "next":
                             cn = txt(idef[0].value.args[0])
                             cdef = sc.def_stmt(cn)
                             if cdef is not None and isinstance(cdef.value, ast.Call) and prog.external(fn.module, cdef.value.func) == "itertools.count" and not par.loops_of(cdef):
